@@ -32,6 +32,12 @@ CHECKS = {
  "C08": dict(level="exploration", tech="reference-cursor monitor: scripted navigation programs (skip / read / wrong accessor / refused StepIn / early StepOut / StepOut at top level / Next after end) over documents from both reference producers, every observation compared with a cursor over the model tree; exhaustive program enumeration for small documents",
    text="Held on the (document, program) pairs executed: all decision scripts for documents with <= 8 values (capped at 3000), 50 random programs for larger ones, text and binary, with skipped regions containing comments, long strings, lobs with delimiters, NOP pads, nested containers.",
    note="Trusted: the reference cursor (contract of reader.go's doc comment). FieldName/Annotations are not compared where a plain traversal would not look (no current value).", ref="3 C08"),
+ "C06": dict(level="exploration", tech="hostile-input monitor with process isolation: grammar-aware hostile documents, byte-level mutations and exhaustive short inputs run in rlimited child workers through six API programs; oracles on recovered panics, fatal runtime errors, values-per-byte, TotalAlloc deltas and CPU seconds",
+   text="Held on the inputs executed: every slot of symbol-table/import structs x every typed null/wrong type/duplicate/extreme number (text and binary), extreme lengths/ids/exponents/years at top level and nested, 65 000-deep nesting, mutations of valid documents in both formats, all short inputs; each through traversal (with and without catalog), random call sequences that continue after errors, Decoder.Decode, Unmarshal into 27 target types.",
+   note="Workers run with RLIMIT_AS = 4 GiB and GOMAXPROCS=1; a worker death is attributed to the input journalled before it started. Allocation bound 1 MiB + 1 KiB per input byte per API call; hang = more than 30 s of child CPU.", ref="3 C06"),
+ "C19": dict(level="fault_enumeration", tech="fault-injection monitor: instrumented io.Reader (every split point, chunk patterns, zero-length reads, EOF with data, failure at every byte offset) and instrumented io.Writer (failure at every write call index, persistent/once, rejected/partial) around the real readers and writers; oracle = equality with the fault-free run, error stickiness, prefix relation",
+   text="Per document the fault space is enumerated: every single split point, read failure at every byte offset 0..len, write failure at every write call index in four fault models and four writer configurations (text, pretty, binary, binary with fixed table); documents are sampled from both reference producers with lookahead-heavy tokens.",
+   note="Read failures are persistent; write failures use both a persistent and a one-shot model. Long write sequences (> 60 calls) are thinned to every third index in the middle.", ref="3 C19"),
 }
 NA = {}
 def main():
